@@ -1,9 +1,10 @@
 use crate::{
     constants::{
-        LmsTreeIdentifier, D_TOPSEED, HSS_COMPRESSED_USED_LEAFS_SIZE, ILEN, MAX_ALLOWED_HSS_LEVELS,
-        MAX_HASH_SIZE, MAX_SEED_LEN, REF_IMPL_MAX_ALLOWED_HSS_LEVELS, REF_IMPL_MAX_PRIVATE_KEY_SIZE,
-        SEED_CHILD_SEED, SEED_SIGNATURE_RANDOMIZER_SEED, TOPSEED_D, TOPSEED_LEN, TOPSEED_SEED,
-        TOPSEED_WHICH, TREE_HEIGHTS, WINTERNITZ_PARAMETERS,
+        lms_public_key_length, lms_signature_length, LmsTreeIdentifier, D_TOPSEED,
+        HSS_COMPRESSED_USED_LEAFS_SIZE, ILEN, MAX_ALLOWED_HSS_LEVELS, MAX_HASH_SIZE, MAX_SEED_LEN,
+        REF_IMPL_MAX_ALLOWED_HSS_LEVELS, REF_IMPL_MAX_PRIVATE_KEY_SIZE, SEED_CHILD_SEED,
+        SEED_SIGNATURE_RANDOMIZER_SEED, TOPSEED_D, TOPSEED_LEN, TOPSEED_SEED, TOPSEED_WHICH,
+        TREE_HEIGHTS, WINTERNITZ_PARAMETERS,
     },
     hasher::HashChain,
     hss::{definitions::HssPrivateKey, seed_derive::SeedDerive},
@@ -231,6 +232,22 @@ pub fn generate_signature_randomizer<H: HashChain>(
 
 const PARAM_SET_END: u8 = 0xff; // Marker for end of parameter set
 
+/// The signature is assembled in an `ArrayVec`, which keeps its length in a `u16`: parameter sets whose
+/// HSS signature is longer than that cannot be signed with and must be refused up front.
+fn hss_signature_is_representable<H: HashChain>(parameters: &[HssParameter<H>]) -> bool {
+    let hash_size = H::OUTPUT_SIZE as usize;
+    let mut length = core::mem::size_of::<u32>()
+        + parameters.len().saturating_sub(1) * lms_public_key_length(hash_size);
+    for parameter in parameters {
+        length += lms_signature_length(
+            hash_size,
+            parameter.get_lmots_parameter().get_num_winternitz_chains() as usize,
+            parameter.get_lms_parameter().get_tree_height() as usize,
+        );
+    }
+    length <= u16::MAX as usize
+}
+
 #[derive(Clone, PartialEq, Eq, Zeroize, ZeroizeOnDrop)]
 pub struct CompressedParameterSet([u8; MAX_ALLOWED_HSS_LEVELS]);
 
@@ -253,7 +270,8 @@ impl CompressedParameterSet {
     }
 
     pub fn from<H: HashChain>(parameters: &[HssParameter<H>]) -> Result<Self, ()> {
-        if parameters.len() > MAX_ALLOWED_HSS_LEVELS {
+        if parameters.len() > MAX_ALLOWED_HSS_LEVELS || !hss_signature_is_representable(parameters)
+        {
             return Err(());
         }
 
@@ -308,7 +326,7 @@ impl CompressedParameterSet {
             result.extend_from_slice(&[HssParameter::new(lmots, lms)]);
         }
 
-        if result.is_empty() {
+        if result.is_empty() || !hss_signature_is_representable(result.as_slice()) {
             return Err(());
         }
 
